@@ -500,10 +500,50 @@ def r14_6(ctx: Ctx) -> None:
         raise AnalysisError(f"{qual}: expected 2 domain feature lookups, found {count}")
 
 
+def r14_7(ctx: Ctx) -> None:
+    """ the look-ahead handed to add_component while a gene's modules are built is 'the components that follow this one':
+        a slice of the very sequence the loop walks, starting one past the current position.  A window cut from another
+        list (a filtered copy) with the index of the walked list is shifted by every element the copy lacks. """
+    from ..loopview import resolve_alias, view
+    qual = "build_modules_for_cds"
+    func = ctx.fn(MI, qual)
+    count = 0
+    for call in calls(func):
+        if last_attr(call) != "add_component" or len(call.args) < 2:
+            continue
+        look = call.args[1]
+        if isinstance(look, ast.Name):
+            values = bound_from(func, look.id)
+            if len(values) == 1:
+                look = values[0]
+        if isinstance(look, (ast.List, ast.Tuple)) and not look.elts:
+            continue  # an explicitly empty look-ahead (the handler's fresh module)
+        loops = [lp for lp in enclosing_loops(call, stop=func) if isinstance(lp, ast.For)]
+        if not loops:
+            continue
+        v = view(func, loops[0].iter, loops[0].target, loops[0].body)
+        count += 1
+        ok = False
+        form = txt(look)[:80]
+        if v is not None and isinstance(look, ast.Subscript) and isinstance(look.slice, ast.Slice) and look.slice.lower is not None:
+            same_seq = txt(resolve_alias(func, look.value)) == v.seq
+            ok = same_seq and v.position_plus(look.slice.lower, 1)
+            form = f"{txt(look)} while walking {v.seq}"
+        ctx.ob("R14.7", MI, call, qual, f"look-ahead of {txt(call)[:50]}", ok,
+               "the look-ahead is the walked sequence itself from the next position on (the two domains after a second carrier "
+               "protein decide whether it may join the module)",
+               detail="" if ok else "a window from another list is offset by the elements that list lacks: with a leading docking "
+               "domain, `KS ACP ACP AT LPG_synthase_C Beta_elim_lyase` is accepted as one module with two carrier proteins, which "
+               "Module.from_json then refuses", form=form)
+    if count < 1:
+        raise AnalysisError(f"{qual}: no add_component call with a look-ahead window found")
+
+
 def run(ctx: Ctx) -> None:
     ctx.rule("R14.1", "singleton slots are write-once", floor=5)
     ctx.rule("R14.2", "validate before mutate; each component added exactly once; refusals handled", floor=16)
     ctx.rule("R14.3", "validator and updater agree (asserts vs raises, look-ahead predicate)", floor=4)
+    ctx.rule("R14.7", "the look-ahead window is cut from the walked sequence at the next position", floor=1)
     ctx.rule("R14.4", "classification tables disjoint and covering; reload through add_component; keys agree", floor=6)
     ctx.rule("R14.5", "combine_modules: complete-or-None, mutate afterwards, order kept", floor=4)
     r14_1(ctx)
@@ -513,3 +553,4 @@ def run(ctx: Ctx) -> None:
     r14_5(ctx)
     ctx.rule("R14.6", "module features take each component's domain from the component's own gene", floor=2)
     r14_6(ctx)
+    r14_7(ctx)
